@@ -169,6 +169,15 @@ let eval (w : string array) : float list =
     let rv = if aniso then Some r0v else None in
     let pl = pl_build_pts fops r0 rv (z_of_int en) (z_of_int ed) tol cell (center_pairs fops g1 g2) in
     [pl_value_pts fops pl r0 rv (z_of_int en) (z_of_int ed) tol cell (center_pairs fops h1 h2)]
+  | "eigenvectorOpt" ->
+    let diff = ni () <> 0 in let norm = ni () <> 0 in
+    let n = ni () in
+    let rf = List.init n (fun _ -> v3 ()) in
+    let vec = List.init n (fun _ -> v3 ()) in
+    let g = group () in
+    let q = optimal_q (List.split (fit_pairs fops rf g)) in
+    let qd = if diff then optimal_q (center_pts fops vec, center_pts fops rf) else q in
+    [cv_eigenvector_v fops q rf (eigvec_prepare fops diff norm qd rf vec) g]
   | "aspath" | "azpath" ->
     (* lambda (<0: automatic), number of frames, atoms per frame, frames, group *)
     let lam = nf () in
